@@ -131,6 +131,9 @@ func (f *c16FS) Rename(o, n string) error {
 	if err := f.st.op("rename", o+" -> "+n); err != nil {
 		return err
 	}
+	if err := simrt.CrossDeviceErr("rename", o, n); err != nil {
+		return err
+	}
 	return f.Fs.Rename(o, n)
 }
 
@@ -305,3 +308,4 @@ func c16RawCopyDir(src, dst string) error {
 }
 
 func c16Setenv(k, v string) { os.Setenv(k, v) }
+func c16Getenv(k string) string { return os.Getenv(k) }
